@@ -158,6 +158,10 @@ func (in *Interp) quoteString(fr *frame, s Value) Value {
 	case string:
 		return strconv.Quote(x)
 	case XStr:
+		if in.prog.Params["fmt_q_opaque"] == 1 {
+			// the check does not depend on the quoted text (error messages)
+			return OStr{in.ctx.App("fmt_q", smt.SeqSort, in.seqTerm(x))}
+		}
 		fn := in.prog.lookupFunc("strconv", "Quote")
 		return in.call(fr, token.NoPos, fn, []Value{x})
 	case OStr:
@@ -276,6 +280,9 @@ func (in *Interp) formatArg(fr *frame, verb byte, flags string, a Iface) Value {
 			}
 			if b, ok := sl.Elem().Underlying().(*types.Basic); ok && b.Kind() == types.Uint8 {
 				s := mkXStr(v)
+				if verb == 'q' && flags == "" {
+					return in.quoteString(fr, s)
+				}
 				if cs, ok := s.(string); ok {
 					return fmt.Sprintf("%"+flags+string(verb), []byte(cs))
 				}
